@@ -46,7 +46,14 @@ namespace
         std::size_t           lo_used = 0, hi_used = 0;
         bool                  fill    = FOONATHAN_MEMORY_DEBUG_FILL != 0;
 
-        explicit Runner(const Exec& e) : x(e) {}
+        Exec                  xt; // how the TARGET of a move assignment is built (header keys tns, tbs, tnodes)
+
+        explicit Runner(const Exec& e) : x(e), xt(e)
+        {
+            for (const char* k : {"ns", "bs", "nodes"})
+                if (e.kv.count(std::string("t") + k))
+                    xt.kv[k] = e.kv.at(std::string("t") + k);
+        }
 
         void* slot(bool hi)
         {
@@ -58,8 +65,9 @@ namespace
             return p;
         }
 
-        ISubject* create(bool hi)
+        ISubject* create(bool hi, bool target = false)
         {
+            const Exec& x = target ? xt : this->x; // (shadows the member on purpose)
             ISubject*   s = nullptr;
             int         src = world().next_src++;
             int         o   = next_o++;
@@ -615,7 +623,7 @@ namespace
             }
             else
             {
-                ISubject* t = create(hi);
+                ISubject* t = create(hi, true);
                 if (!t)
                     return;
                 long        d0 = w.up_frees, c0 = w.up_calls;
